@@ -104,6 +104,13 @@ def priorityValue (fence : Bool) (offset prio : Int) : Int :=
 /-- the maximum recalculatePriority / updateAskMaxPriority take, starting from MinPriority -/
 def maxPriority (items : List Int) : Int := items.foldl (fun curr v => max v curr) minPrio
 
+/-- the entries of an application (`Application.requests`): priority and whether the entry is allocated (bound to a
+    node: allocated by the scheduler, or recovered / placed by the RM). Outstanding = not allocated. -/
+def outstanding (entries : List (Int × Bool)) : List Int := (entries.filter (fun e => !e.2)).map (·.1)
+
+/-- `Application.askMaxPriority`: the largest priority of the OUTSTANDING asks — allocated entries do not count -/
+def askMaxPriority (entries : List (Int × Bool)) : Int := maxPriority (outstanding entries)
+
 /-- a leaf queue: policy, offset and per application the priorities of its pending asks -/
 structure PrioLeaf where
   fence : Bool
